@@ -2802,21 +2802,25 @@ impl HnswBackend {
         };
         let search_k = compute_search_k(k, live_docs, total_slots);
 
-        let mut raw_results = {
-            let index = self.index.read();
-            let distance = index.distance_metric();
-            let normalized_query = normalize_query_if_needed(distance, query)?;
-            index.knn_search_with_ef_cancel(
-                normalized_query.as_ref(),
-                search_k,
-                ef_search_override,
-                cancelled,
-            )?
-        };
+        // The index reports INTERNAL ids. Tombstone compaction renumbers them while holding
+        // `index.write()` + `doc_store.write()`, so the id map must be locked before the index
+        // guard is released - otherwise a compaction slipping in between makes the results map
+        // to other documents (with the distances of the original ones). Lock order index ->
+        // doc_store is the same as on the write path.
+        let index = self.index.read();
+        let distance = index.distance_metric();
+        let normalized_query = normalize_query_if_needed(distance, query)?;
+        let mut raw_results = index.knn_search_with_ef_cancel(
+            normalized_query.as_ref(),
+            search_k,
+            ef_search_override,
+            cancelled,
+        )?;
 
         // Backend results are already sorted by ascending distance.
         // Preserve order while filtering tombstones and remapping IDs.
         let store = self.doc_store.read();
+        drop(index);
         let mut mapped = Vec::with_capacity(k.min(raw_results.len()));
         for r in raw_results.drain(..) {
             let internal_id = r.doc_id as usize;
@@ -2896,7 +2900,7 @@ impl HnswBackend {
         // Keep chunked parallel execution to preserve batched throughput advantages.
         let worker_count = rayon::current_num_threads().max(1);
         let batch_chunk_size = worker_count.saturating_mul(8).max(32);
-        let mut raw_results: Vec<Vec<SearchResult>> = Vec::with_capacity(queries.len());
+        let mut mapped: Vec<Vec<SearchResult>> = Vec::with_capacity(queries.len());
         for chunk in queries.chunks(batch_chunk_size) {
             let index = self.index.read();
             let chunk_results: Vec<Result<Vec<SearchResult>>> = chunk
@@ -2912,15 +2916,14 @@ impl HnswBackend {
                 .collect();
             let chunk_results: Vec<Vec<SearchResult>> =
                 chunk_results.into_iter().collect::<Result<_>>()?;
-            raw_results.extend(chunk_results);
-            drop(index);
-        }
 
-        // Map internal IDs to external IDs in a single doc_store read pass (no O(N) clone).
-        let store = self.doc_store.read();
-        let mapped = raw_results
-            .into_iter()
-            .map(|mut results| {
+            // Map internal IDs to external IDs before the index guard is released: tombstone
+            // compaction renumbers internal ids under `index.write()` + `doc_store.write()`, so a
+            // compaction between the search and the mapping would attribute the results to other
+            // documents. One doc_store read pass per chunk (no O(N) clone).
+            let store = self.doc_store.read();
+            drop(index);
+            for mut results in chunk_results {
                 // Results are already sorted by ascending distance from the index backend;
                 // preserve that order while filtering tombstones.
                 let mut out = Vec::with_capacity(k.min(results.len()));
@@ -2938,9 +2941,11 @@ impl HnswBackend {
                         break;
                     }
                 }
-                out
-            })
-            .collect();
+                mapped.push(out);
+            }
+            drop(store);
+        }
+
         Ok(mapped)
     }
 
